@@ -2,6 +2,12 @@
 from vx import core
 from vx.core import Unit
 
+# "next free id": `self.defined_ids().last().map(|id| id + 1).unwrap_or(0)`, and the neighbouring idiom that takes the LAST ENTRY of decision_variables instead of the largest id
+# (a frequent slip: it is only right for a list sorted by id).  Both stay inside the dialect; the contract of the unit decides.
+NEXT_ID_RSUBS = [(r'self\s*\.defined_ids\(\)\s*\.last\(\)\s*\.map\(', 'opt_map(btreeset_last(&self.defined_ids()), ', None),
+                 (r'self\s*\.decision_variables\s*\.last\(\)\s*\.map\(', 'opt_map(vec_last(&self.decision_variables), ', None)]
+NEXT_ID_ALTS = [dict(params='dv', typed='dv: &DecisionVariable', ret='u64', requires='dv.id < u64::MAX', ensures='ret == dv.id + 1')]
+
 F = 'v1_ext/instance.rs'
 I = r'impl Instance \{'
 W = ('impl Instance {', '}')
@@ -84,9 +90,9 @@ def log_encode():
                     && (forall|j: int| 0 <= j < n ==> (#[trigger] r->Ok_0.terms[j]).id == idb + j && r->Ok_0.terms[j].coefficient@ == XR::Fin(coef(j as nat, n as nat, uu))))
         }),''',
                 closures=[dict(params='dv', typed='dv: &&DecisionVariable', ret='bool', ensures='ret == (dv.id == decision_variable_id)'),
-                          dict(params='id', typed='id: &u64', ret='u64', requires='*id < u64::MAX', ensures='ret == *id + 1')],
+                          dict(params='id', typed='id: &u64', ret='u64', requires='*id < u64::MAX', ensures='ret == *id + 1', alts=NEXT_ID_ALTS)],
+                          pre_rsubs=NEXT_ID_RSUBS,
                 subs=[('(u_l + lit_1p0()).log2().ceil() as usize', 'ceil_log2_usize(u_l + lit_1p0())'),
-                      ('self.defined_ids().last().map(', 'opt_map(btreeset_last(&self.defined_ids()), '),
                       ('let mut terms = Vec::new();', 'let mut terms: Vec<(u64, F64)> = Vec::new();')],
                 rsubs=[(r'Linear::new\(terms\.into_iter\(\),', 'Linear::new(terms,', 1)],
                 loops=[dict(kind='for', it='it_1', inv='''invariant
@@ -196,8 +202,9 @@ def penalty_method():
             &&& p.objective == Some(pen_obj(ofun(self), self.constraints@, p.parameters@, nc))
             &&& pen_steps_ok(ofun(self), self.constraints@, p.parameters@, nc)
         }),''',
-                closures=[dict(params='id', typed='id: &u64', ret='u64', requires='*id < u64::MAX', ensures='ret == *id + 1')],
-                subs=[('self.defined_ids().last().map(', 'opt_map(btreeset_last(&self.defined_ids()), '),
+                closures=[dict(params='id', typed='id: &u64', ret='u64', requires='*id < u64::MAX', ensures='ret == *id + 1', alts=NEXT_ID_ALTS)],
+                pre_rsubs=NEXT_ID_RSUBS,
+                subs=[
                       ('let mut parameters = Vec::new();', 'let mut parameters: Vec<Parameter> = Vec::new();')],
                 rsubs=[(r'let mut removed_constraints =', 'let mut removed_constraints: Vec<RemovedConstraint> =', 1),
                        (r'hashmap!\s*\{\s*("parameter_id"\.to_string\(\))\s*=>\s*([\w\.]+)\.to_string\(\)\s*\}', r'hashmap1(\1, u64_to_string(\2))', 1),
@@ -250,8 +257,9 @@ def uniform_penalty_method():
             &&& quad_steps_ok(self.constraints@, nc) && is_par_prod(par_mul(p.parameters[0], quad_acc(self.constraints@, nc)), p.parameters[0], quad_acc(self.constraints@, nc))
             &&& is_sum(p.objective->Some_0, ofun(self), par_mul(p.parameters[0], quad_acc(self.constraints@, nc)))
         }),''',
-                closures=[dict(params='id', typed='id: &u64', ret='u64', requires='*id < u64::MAX', ensures='ret == *id + 1')],
-                subs=[('self.defined_ids().last().map(', 'opt_map(btreeset_last(&self.defined_ids()), ')],
+                closures=[dict(params='id', typed='id: &u64', ret='u64', requires='*id < u64::MAX', ensures='ret == *id + 1', alts=NEXT_ID_ALTS)],
+                pre_rsubs=NEXT_ID_RSUBS,
+                subs=[],
                 rsubs=[(r'let mut removed_constraints =', 'let mut removed_constraints: Vec<RemovedConstraint> =', 1),
                        (r'in self\.constraints\.into_iter\(\)', 'in self.constraints', 1),
                        (r'&parameter \* ((?:\w+)(?:\.\w+\([^()]*\))*)', r'<&Parameter as core::ops::Mul<Function>>::mul(&parameter, \1)', None)],
@@ -351,8 +359,9 @@ SLACK_REJECT = '''        // rejected WITHOUT modifying the instance
             &&& (c.function is None ==> r is Err)
             &&& (c.function is Some && !all_int_kind(old(self).decision_variables@, fn_ids(c.function->Some_0)) ==> r is Err) }),'''
 SLACK_COMMON_SUBS = dict(
-    closures=[dict(params='id', typed='id: &u64', ret='u64', requires='*id < u64::MAX', ensures='ret == *id + 1'),
+    closures=[dict(params='id', typed='id: &u64', ret='u64', requires='*id < u64::MAX', ensures='ret == *id + 1', alts=NEXT_ID_ALTS),
               dict(params='c', typed='c: &Constraint', ret='bool', ensures='ret == (c.id == constraint_id)')],
+    pre_rsubs=NEXT_ID_RSUBS,
 )
 
 
@@ -374,8 +383,8 @@ pub fn convert_inequality_to_equality_with_integer_slack(&mut self, constraint_i
             ||| // otherwise: one new integer slack variable s in [0, -L] with a fresh id, and the constraint becomes f + s/a = 0 (same id)
                 (exists|a: F64, big_l: real| #![trigger slack_post(*old(self), *final(self), constraint_id, max_integer_range, a, big_l)]
                     slack_post(*old(self), *final(self), constraint_id, max_integer_range, a, big_l)) }),''',
-                closures=SLACK_COMMON_SUBS['closures'],
-                subs=[('self.defined_ids().last().map(', 'opt_map(btreeset_last(&self.defined_ids()), '),
+                closures=SLACK_COMMON_SUBS['closures'], pre_rsubs=SLACK_COMMON_SUBS['pre_rsubs'],
+                subs=[
                       ('max_integer_range as F64', 'u64_as_f64(max_integer_range)')],
                 rsubs=[(r'for id in function\.used_decision_variable_ids\(\) \{', 'for id in btreeset_to_vec(&function.used_decision_variable_ids()) {', 1)],
                 loops=[dict(kind='for', it='it_1', rebind='*__e', body_proof=' proof { assert(*__e == __h1[it_1.index@ as int]); }', inv='''invariant
@@ -415,8 +424,8 @@ pub fn add_integer_slack_to_inequality(&mut self, constraint_id: u64, slack_uppe
             ||| // otherwise a bounded integer slack term b*s is added and b is reported
                 (exists|lower: XR, bb: F64| #![trigger slack_add_post(*old(self), *final(self), constraint_id, slack_upper_bound, bb, lower)]
                     r->Ok_0 == Some(bb) && slack_add_post(*old(self), *final(self), constraint_id, slack_upper_bound, bb, lower)) }),''',
-                closures=SLACK_COMMON_SUBS['closures'],
-                subs=[('self.defined_ids().last().map(', 'opt_map(btreeset_last(&self.defined_ids()), ')],
+                closures=SLACK_COMMON_SUBS['closures'], pre_rsubs=SLACK_COMMON_SUBS['pre_rsubs'],
+                subs=[],
                 rsubs=[(r'for id in f\.used_decision_variable_ids\(\) \{', 'for id in btreeset_to_vec(&f.used_decision_variable_ids()) {', 1),
                        (r'slack_upper_bound as F64', 'u64_as_f64(slack_upper_bound)', None)],
                 loops=[dict(kind='for', it='it_1', rebind='*__e', body_proof=' proof { assert(*__e == __h1[it_1.index@ as int]); }', inv='''invariant
